@@ -15,7 +15,11 @@ func runC10(r *Run, rng *rand.Rand, thorough bool) {
 		r.Traces++
 		if c.parts > 0 {
 			parts := c.wire(c.args)
-			gw, _, _ := r.Do(c.sys+"/wire", true, "wire_roundtrip", eInts(parts), itoa(c.parts))
+			wargs := []string{eInts(parts), itoa(c.parts)}
+			if c.wireTag != "" {
+				wargs = append(wargs, c.wireTag)
+			}
+			gw, _, _ := r.Do(c.sys+"/wire", true, "wire_roundtrip", wargs...)
 			r.Assert(gw == "ok "+eInts(parts), c.sys+"/wire-roundtrip", "proof-survives-wire-encoding", func() string { return c.sys + " -> " + gw[:min(len(gw), 80)] })
 		}
 	}
